@@ -129,7 +129,7 @@ def run(tier, seed):
     _, _, mm2 = validate(st, "selftest")
     chk.cov["selftest"] = {"corrupted_events": 4, "rejected": len(mm2), "ok": len(mm2) == 4}
     if len(mm2) != 4:
-        raise ToolError("self-test: corrupted outcomes were not all rejected")
+        chk.selftest_failed("corrupted outcomes were not all rejected")
     chk.cov.update({
         "evaluations": n,
         "distinct_nontrivial": sum(1 for (k, o), v in kinds.items() for _ in range(v) if o != "ok"),
